@@ -203,6 +203,35 @@ def xtn_edge_scripts(rng, tier):
     return out
 
 
+def gcm_crafted_scripts(rng, tier):
+    """a key holder's packets for a receiver whose AES-GCM policy combines cryptex with RFC 6904 ids: CSRC values that read
+    as an extension header (profile 0x1000 / 0xBEDE, long length) once cryptex has shuffled the CSRC list in place, payloads
+    that parse as chains of extension elements; exact-size buffers.  (Once an out-of-bounds walk in srtp_unprotect_aead.)"""
+    out = []
+    for k in range(6 if tier == "quick" else 40):
+        ssrc = rng.randrange(2, 1 << 32)
+        bits = rng.choice([128, 256])
+        g = gcm_cp(bits, rng.choice([16, 8]), 3)
+        key = rand_key(rng, 44)
+        ids = bytes(rng.sample(range(1, 15), rng.choice([1, 3])))
+        ps = default_policy(rng, ssrc, rtp=g, rtcp=g, keys=[(key, b"")], cryptex=True)
+        pr = default_policy(rng, ssrc, rtp=g, rtcp=g, keys=[(key, b"")], cryptex=True, enc_xtn=ids)
+        L = [ps.line(1), pr.line(2), "create 1 1", "create 2 2", "create 3 2"]
+        for i in range(6):
+            cc = rng.choice([1, 1, 2, 15])
+            fake = rng.choice([0x10000100, 0x100000ff, 0xbede0040, 0xbede00ff, 0x10050010])
+            csrcs = [rng.randrange(1 << 32) for _ in range(cc - 1)] + [fake]
+            eid = rng.choice(list(ids))
+            payload = (bytes([eid, 255]) if fake >> 16 != 0xbede else bytes([(eid << 4) | 15])) + rand_key(rng, rng.choice([0, 3, 20, 40]))
+            pkt = rtp_packet(ssrc, 10 + i, payload=payload, csrcs=csrcs, ext=(rng.choice([0xBEDE, 0x1000]), rand_key(rng, 4 * rng.choice([0, 1, 2]))))
+            L.append(pkt_op("protect", 1, pkt, cap=len(pkt) + 16, mode=0)); a = len(L)
+            L.append(pkt_op("unprotect", 2, f"@{a:x}", cap=len(pkt), mode=0))
+            L.append(pkt_op("unprotect", 3, f"@{a:x}", cap=len(pkt), mode=rng.choice([1, 2])))
+        L += ["dealloc 1", "dealloc 2", "dealloc 3"]
+        out.append((f"gcm-crafted-{k}", "\n".join(L) + "\n"))
+    return out
+
+
 def monitor(script, c):
     hits = []
     for l in c:
@@ -226,4 +255,5 @@ def families(tier, seed):
             Family("xtn-edge-shapes", xtn_edge_scripts(rng, tier), monitor=monitor),
             # the AES-GCM paths (OpenSSL configuration): malformed / truncated / extended / bit-flipped packets, small capacities
             Family("gcm-malformed-packets", with_aead(malformed_scripts, random.Random(seed * 1000 + 110), tier, n=(12 if tier == "quick" else 200)),
-                   monitor=monitor, config="openssl")]
+                   monitor=monitor, config="openssl"),
+            Family("gcm-cryptex-6904-crafted", gcm_crafted_scripts(random.Random(seed * 1000 + 210), tier), monitor=monitor, config="openssl")]
